@@ -193,13 +193,22 @@ def check_cases(draw):
         if lang == "Python":
             ls = [max(2, v) for v in ls]
         sub = draw(st.sampled_from(["", "", "src/", "lib/core/"]))
-        files.append({"path": f"{sub}m{i}.{tree.EXT[lang]}", "language": lang, "lengths": ls})
+        f = {"path": f"{sub}m{i}.{tree.EXT[lang]}", "language": lang, "lengths": ls}
+        if draw(st.integers(0, 3)) == 0:
+            f["encoding"] = "latin-1"  # a leading comment line with a non-ASCII letter, stored as ISO-8859-1 (not valid UTF-8)
+        files.append(f)
     return {"kind": "check", "files": files, "quiet": draw(st.booleans()), "via": draw(st.sampled_from(["files", "files", "dir", "reversed"]))}
 
 
 def run_check_case(case):
     files = case["files"]
-    content = {f["path"]: tree.flat_file(f["language"], f["lengths"]) for f in files}
+    content = {}
+    for f in files:
+        text = tree.flat_file(f["language"], f["lengths"])
+        if f.get("encoding") == "latin-1":
+            content[f["path"]] = (("# début\n" if f["language"] == "Python" else "// début\n") + text).encode("latin-1")
+        else:
+            content[f["path"]] = text
     with tree.temp_tree(content) as root:
         if case["via"] == "dir":
             paths = ["."]
@@ -268,7 +277,7 @@ def gen_check(col, seed, n):
     def body(case):
         alll = [v for f in case["files"] for v in f["lengths"]]
         near = any(abs(v - b) <= 2 for v in alll for b in (15, 30, 60))
-        labels = ["quiet" if case["quiet"] else "loud", f"via:{case['via']}"]
+        labels = ["quiet" if case["quiet"] else "loud", f"via:{case['via']}"] + (["has-latin-1-file"] if any(f.get("encoding") for f in case["files"]) else [])
         if any(v > 60 for v in alll):
             labels.append("has>60")
         elif any(v > 30 for v in alll):
